@@ -121,3 +121,65 @@ func c08R6(h H) {
 		r.Unresolve("R6", "no RegisterEventHook call found outside init functions")
 	}
 }
+
+// c08R7: the restart-failed callbacks of an instance run when a *later* reload fails, on the instance that keeps
+// serving.  A function registered there must not be one that takes the instance's own resources down: what a directive
+// registers with OnShutdown (stop the health checks, close the logs) is exactly that.  In every function of the module,
+// no function value handed to Controller.OnRestartFailed is also handed to Controller.OnShutdown or OnFinalShutdown.
+func c08R7(h H) {
+	r := h.r
+	r.Rule("R7", "a failed reload does not run the running instance's shutdown code: no function (method value, closure body or named function) that a directive registers with Controller.OnShutdown / OnFinalShutdown is also registered with Controller.OnRestartFailed (those callbacks run on the instance that keeps serving)", 1)
+	target := func(v ssa.Value) string {
+		switch t := v.(type) {
+		case *ssa.MakeClosure:
+			return strings.TrimSuffix(t.Fn.(*ssa.Function).String(), "$bound")
+		case *ssa.Function:
+			return t.String()
+		case *ssa.ChangeType:
+			if f, ok := t.X.(*ssa.Function); ok {
+				return f.String()
+			}
+		}
+		return ""
+	}
+	shutdown := map[string]bool{}
+	type reg struct {
+		in ssa.Instruction
+		fn *ssa.Function
+		t  string
+	}
+	var failed []reg
+	nShut := 0
+	for _, fn := range h.p.ModFuncs() {
+		allInstrs(fn, func(in ssa.Instruction) {
+			c := callOf(in)
+			if c == nil || c.IsInvoke() || len(c.Args) < 2 {
+				return
+			}
+			switch name := calleeName(c); {
+			case strings.HasSuffix(name, "casket.Controller).OnShutdown"), strings.HasSuffix(name, "casket.Controller).OnFinalShutdown"):
+				nShut++
+				if t := target(c.Args[1]); t != "" {
+					shutdown[t] = true
+				}
+			case strings.HasSuffix(name, "casket.Controller).OnRestartFailed"):
+				failed = append(failed, reg{in, fn, target(c.Args[1])})
+			}
+		})
+	}
+	if nShut < 2 {
+		r.Unresolve("R7", sprintf("only %d Controller.OnShutdown registrations found in the module", nShut))
+		return
+	}
+	if len(failed) == 0 {
+		r.Check(true, "R7", "casket.Controller.OnRestartFailed/no-directive-registers-one", token.NoPos, "no directive registers a restart-failed callback", sprintf("%d shutdown registrations", nShut))
+		return
+	}
+	for i, f := range failed {
+		bad := ""
+		if f.t != "" && shutdown[f.t] {
+			bad = f.t + " is registered as a shutdown callback too: when a later reload fails it stops what the running instance still needs"
+		}
+		r.Check(bad == "", "R7", sprintf("%s/restart-failed-callback#%d", shortFunc(f.fn), i+1), f.in.Pos(), "a restart-failed callback is not the instance's shutdown code", bad)
+	}
+}
